@@ -119,7 +119,7 @@ def match_known(known, prop, kind, key):
         m = e.get("match", {})
         if m.get("kind") != kind:
             continue
-        if m.get("key") == key or (m.get("key_prefix") and key.startswith(m["key_prefix"])):
+        if m.get("key") == key or key in (m.get("keys") or ()) or (m.get("key_prefix") and key.startswith(m["key_prefix"])):
             return e
     return None
 
